@@ -89,11 +89,11 @@ Proof.
   unfold mid_elem_data, ser_upid_elem. cbn [fst snd]. rewrite Hl. unfold w8. rewrite N.mod_small by assumption. reflexivity.
 Qed.
 
-Lemma seg_event_data_ser d body : normal_desc d -> d_cancel d = false ->
+Lemma seg_event_data_ser lenok d body : normal_desc_gen lenok d -> d_cancel d = false ->
   logical_seg d = Seg (d_event_id d) (Some body) -> seg_event_data d = ser_seg_body body.
 Proof.
   destruct d as [ty eid hasdur dur uty u m sn se ssn sse owner cancel dnr hassub prog web nobl arch dev comps].
-  unfold normal_desc, logical_seg, logical_upid, seg_event_data.
+  unfold normal_desc_gen, logical_seg, logical_upid, seg_event_data.
   cbn [d_type d_event_id d_has_duration d_duration d_upid_type d_upid d_mid d_seg_num d_segs_expected d_sub_seg_num
        d_sub_segs_expected d_owner d_cancel d_dnr d_has_sub d_program_seg d_web d_noblackout d_archive d_device d_components].
   intros (He & Hb) Hc Hl. subst cancel.
@@ -130,7 +130,7 @@ Proof.
   assert (Hp : to_be32 segDescID ++ to_be32 (d_event_id d) ++ (if d_cancel d then [255] else 127 :: seg_event_data d)
                = ser_desc_payload (logical_seg d)).
   { unfold logical_seg. destruct (d_cancel d) eqn:Hc; cbn [ser_desc_payload]; [reflexivity|].
-    erewrite (seg_event_data_ser d); [reflexivity|assumption|assumption|].
+    erewrite (seg_event_data_ser _ d); [reflexivity|exact Hn|assumption|].
     unfold logical_seg. rewrite Hc. reflexivity. }
   rewrite Hp. f_equal. f_equal. rewrite <- Hp. unfold w8. apply N.mod_small.
   destruct (d_cancel d) eqn:Hc.
